@@ -140,6 +140,7 @@ fn chain_json(c: &[Elem]) -> String {
 }
 
 pub fn run(seed: u64, n: usize, out: &str, c16: bool) {
+    if c16 { return run_c16(seed, n, out); }
     let mut r = Rng::new(seed ^ if c16 { 0xC16 } else { 0xC06 });
     let mut sink = Sink::new(out, "C06", 200);
     #[cfg(feature = "float")]
@@ -207,4 +208,200 @@ pub fn replay(args: &[String]) {
     let i = &v[32..];
     let o = apply(&t, op, i);
     println!("{{\"kind\":\"apply\",\"chain\":[],\"tr\":{},\"op\":{},\"in\":{},\"out\":{}}}", jfs(&v[0..32]), op, jfs(i), jfs(&o));
+}
+
+// ---------------------------------------------------------------------------------------------
+// C16 stream: the error-returning functions (ops 6, 7, 11..20) on random and ADVERSARIAL operands.
+// The C06 stream above is untouched (run(.., false) never reaches this code).
+
+/// ops of the C16 stream
+const C16_OPS: [usize; 12] = [6, 7, 11, 12, 13, 14, 15, 16, 17, 18, 19, 20];
+
+/// chains whose rows have three non-zero linear entries and a translation of any size
+fn c16_chain(r: &mut Rng) -> Vec<Elem> {
+    let t = |r: &mut Rng| -> Float {
+        match r.below(5) {
+            0 => 0.0,
+            1 => *r.pick(&[0.1, -0.1, 0.3, 1000.0, 1e-3, 0.7, -2.5]) as Float,
+            _ => r.logmag(-4.0, 3.0) as Float,
+        }
+    };
+    let a = |r: &mut Rng| -> Float { if r.chance(0.3) { *r.pick(&[20.0, 35.0, 45.0, 30.0, 60.0, 10.0, 75.0, -50.0]) as Float } else { r.range(-180.0, 180.0) as Float } };
+    let mut c = vec![Elem::Tr(t(r), t(r), t(r))];
+    match r.below(4) {
+        0 => { c.push(Elem::Rz(a(r))); c.push(Elem::Rx(a(r))); }
+        1 => { c.push(Elem::Ry(a(r))); c.push(Elem::Rz(a(r))); c.push(Elem::Rx(a(r))); }
+        2 => { c.push(Elem::Rx(a(r))); c.push(Elem::Ry(a(r))); let s = (10.0f64).powf(r.range(-1.0, 1.0)) as Float; c.push(Elem::Sc(s, s, s)); }
+        _ => { c.push(Elem::Rz(a(r))); c.push(Elem::Ry(a(r))); c.push(Elem::Tr(t(r), t(r), t(r))); }
+    }
+    c
+}
+
+fn two_sum(a: Float, b: Float) -> (Float, Float) {
+    let s = a + b;
+    let bb = s - a;
+    (s, (a - (s - bb)) + (b - bb))
+}
+/// exact rounding error (exact - computed, as a float sum of the six error-free-transformation residuals)
+/// of one row `((m0 x + m1 y) + m2 z) [+ m3]`, over the bound the crate reports for it
+fn row_objective(m: &[Float], p: &[Float; 3], pt: bool) -> Float {
+    let (a, b, c) = (m[0] * p[0], m[1] * p[1], m[2] * p[2]);
+    let e1 = m[0].mul_add(p[0], -a);
+    let e2 = m[1].mul_add(p[1], -b);
+    let e3 = m[2].mul_add(p[2], -c);
+    let (s1, e4) = two_sum(a, b);
+    let (s2, e5) = two_sum(s1, c);
+    let e6 = if pt { two_sum(s2, m[3]).1 } else { 0.0 };
+    let g3 = { let nm = Float::EPSILON / 2.0 * 3.0; nm / (1.0 - nm) };
+    let bound = (a.abs() + b.abs() + c.abs() + m[3].abs()) * g3;
+    if !(bound > 0.0) { return 0.0; }
+    let tot = ((e1 + e2) + (e3 + e4)) + (e5 + e6);
+    (tot / bound).abs()
+}
+fn step_ulps(x: Float, k: i64) -> Float {
+    if x == 0.0 || !x.is_finite() { return x; }
+    let b = x.to_bits() as i64 + k;
+    let y = Float::from_bits(b as _);
+    if y.is_finite() && y != 0.0 && (y < 0.0) == (x < 0.0) { y } else { x }
+}
+/// adversarial operand for row `row` of the 16-entry matrix `m`: every product and partial sum is steered to just above
+/// a power of two (so that each rounding errs by almost half an ulp of the running sum), then a greedy search over the
+/// low bits keeps what increases (exact rounding error) / (reported bound)
+fn adversarial_operand(r: &mut Rng, m: &[Float], row: usize, pt: bool) -> [Float; 3] {
+    let mr = &m[4 * row..4 * row + 4];
+    let k = r.below(18) as i32 - 4;
+    let h = (2.0 as Float).powi(k);
+    let sgn: Float = if r.chance(0.5) { 1.0 } else { -1.0 };
+    let u = Float::EPSILON / 2.0;
+    let mut p = [0.0 as Float; 3];
+    let style = r.below(4);
+    for j in 0..3 {
+        if mr[j] == 0.0 || !mr[j].is_finite() { p[j] = coord(r, true); continue; }
+        let target = match (j, style) {
+            (0, _) | (1, _) => h * (1.0 + (r.f01() as Float) * 1e-9),
+            // third term: absorbed (just above half an ulp of the running sum 2h), or of moderate size
+            (_, 0) | (_, 1) => 2.0 * h * u * (1.0 + (r.f01() as Float) * 0.02) * 2.0,
+            (_, 2) => h * (r.f01() as Float) * 0.3,
+            _ => h,
+        };
+        let v = sgn * target / mr[j];
+        p[j] = if v.is_finite() && v.abs() <= 1e6 { v } else { coord(r, true) };
+    }
+    let mut best = row_objective(mr, &p, pt);
+    let iters = 150 + r.below(250);
+    for _ in 0..iters {
+        let j = r.below(3) as usize;
+        let span = *r.pick(&[3i64, 40, 1000, 60000]);
+        let k = r.below(2 * span as u64 + 1) as i64 - span;
+        let mut q = p;
+        q[j] = step_ulps(q[j], k);
+        if q[j].abs() > 1e6 { continue; }
+        let v = row_objective(mr, &q, pt);
+        if v > best { best = v; p = q; }
+    }
+    p
+}
+/// input error boxes: zero, tiny, up to 1e-3, and boxes whose products with the row are just above a power of two
+fn err_box(r: &mut Rng, m: &[Float], row: usize) -> [Float; 3] {
+    let mut e = [0.0 as Float; 3];
+    let style = r.below(5);
+    for j in 0..3 {
+        e[j] = match style {
+            0 => 0.0,
+            1 => (r.f01() * 1e-3) as Float,
+            2 => (10.0f64).powf(r.range(-12.0, -3.0)) as Float,
+            3 => if r.chance(0.5) { 0.0 } else { (r.f01() * 1e-3) as Float },
+            _ => {
+                let mj = m[4 * row + j];
+                let k = -(r.below(30) as i32) - 10;
+                let v = ((2.0 as Float).powi(k) * (1.0 + Float::EPSILON * (r.below(4) as Float))) / mj.abs();
+                if mj != 0.0 && v.is_finite() && v <= 1e-3 { step_ulps(v, r.below(7) as i64 - 3) } else { (r.f01() * 1e-3) as Float }
+            }
+        };
+    }
+    e
+}
+fn c16_inputs(r: &mut Rng, mats: &[Float], op: usize) -> (Vec<Float>, bool) {
+    let inv = matches!(op, 7 | 12 | 14 | 16 | 18 | 20);
+    let m = if inv { &mats[16..32] } else { &mats[0..16] };
+    let adv = r.chance(0.6);
+    let row = r.below(3) as usize;
+    let rand3 = |r: &mut Rng| -> [Float; 3] { [coord(r, true), coord(r, true), coord(r, true)] };
+    let mut v: Vec<Float> = vec![];
+    match op {
+        11 | 12 | 13 | 14 => { v.extend(if adv { adversarial_operand(r, m, row, true) } else { rand3(r) }); }
+        15 | 16 | 17 | 18 => { v.extend(if adv { adversarial_operand(r, m, row, false) } else { rand3(r) }); }
+        _ => {
+            v.extend(if adv { adversarial_operand(r, m, row, true) } else { rand3(r) });
+            let row2 = r.below(3) as usize;
+            v.extend(if adv && r.chance(0.5) { adversarial_operand(r, m, row2, false) } else { rand3(r) });
+        }
+    }
+    match op {
+        13 | 14 | 17 | 18 => v.extend(err_box(r, m, row)),
+        19 | 20 => { v.extend(err_box(r, m, row)); let row2 = r.below(3) as usize; v.extend(err_box(r, m, row2)); }
+        _ => {}
+    }
+    (v, adv)
+}
+
+/// corpus of the C16 stream: the witnesses of the recorded findings, built through the real constructors
+fn c16_corpus() -> Vec<(Vec<Elem>, usize, Vec<Float>)> {
+    let fb = |b: u64| -> Float { f64::from_bits(b) as Float };
+    vec![
+        // (M): translate(1000,0,0), input error 1e-9 -> reported error about 1000
+        (vec![Elem::Tr(1000.0, 0.0, 0.0)], 13, vec![1.0, 2.0, 3.0, 1e-9, 1e-9, 1e-9]),
+        (vec![Elem::Tr(1000.0, 0.0, 0.0)], 17, vec![1.0, 2.0, 3.0, 1e-9, 1e-9, 1e-9]),
+        // (S), points: translate(0.1,0,0) . rotate_z(20) . rotate_x(35); all six roundings of row 0 err upwards
+        (vec![Elem::Tr(0.1, 0.0, 0.0), Elem::Rz(20.0), Elem::Rx(35.0)], 11,
+         vec![fb(4602967850164860044), fb(13834088218870435676), fb(4378735083965787658)]),
+        (vec![Elem::Tr(0.1, 0.0, 0.0), Elem::Rz(20.0), Elem::Rx(35.0)], 6,
+         vec![fb(4602967850164860044), fb(13834088218870435676), fb(4378735083965787658), 0.0, 0.0, 1.0]),
+        // (S), underflow: scale(0.5,1,1) applied to the smallest subnormal: image 2^-1075, returned value 0 +- 0
+        (vec![Elem::Sc(0.5, 1.0, 1.0)], 15, vec![Float::from_bits(1), 0.0, 0.0]),
+    ]
+}
+
+pub fn run_c16(seed: u64, n: usize, out: &str) {
+    let mut r = Rng::new(seed ^ 0xC16);
+    let mut sink = Sink::new(out, "C06", 200);
+    #[cfg(feature = "float")]
+    { sink.runner = "C06f32".to_string(); }
+    let push_apply = |sink: &mut Sink, chain: &[Elem], t: &Transform, op: usize, i: &[Float], adv: bool| {
+        let m = mats(t);
+        let o = match catch(|| apply(t, op, i)) { Ok(o) => o, Err(_) => return };
+        sink.push(
+            format!("(2%N, {}, {}%N, {}, {})", sfs(&m), op, sfs(i), sfs(&o)),
+            format!("{{\"kind\":\"apply\",\"chain\":{},\"tr\":{},\"op\":{},\"in\":{},\"out\":{},\"adv\":{}}}", chain_json(chain), jfs(&m), op, jfs(i), jfs(&o), if adv { 1 } else { 0 }),
+        );
+    };
+    for (chain, op, i) in c16_corpus() {
+        let mut t = Transform::new();
+        for e in chain.iter() { t *= elem_tr(e); }
+        push_apply(&mut sink, &chain, &t, op, &i, true);
+    }
+    while sink.len() < n {
+        let chain = if r.chance(0.45) { rand_chain(&mut r) } else { c16_chain(&mut r) };
+        let mut t = Transform::new();
+        for e in chain.iter() {
+            let et = elem_tr(e);
+            let before = mats(&t);
+            t *= et.clone();
+            // the composition steps stay in the stream (bit-exact given the operands): the matrices the
+            // error functions are applied to are exactly the ones the model composed
+            if r.chance(0.25) {
+                sink.push(
+                    format!("(1%N, {}, 0%N, {}, {})", sfs(&before), sfs(&mats(&et)), sfs(&mats(&t))),
+                    format!("{{\"kind\":\"mul\",\"a\":{},\"b\":{},\"out\":{}}}", jfs(&before), jfs(&mats(&et)), jfs(&mats(&t))),
+                );
+            }
+        }
+        let m = mats(&t);
+        for _ in 0..12 {
+            let op = *r.pick(&C16_OPS);
+            let (i, adv) = c16_inputs(&mut r, &m, op);
+            push_apply(&mut sink, &chain, &t, op, &i, adv);
+        }
+    }
+    sink.flush();
 }
